@@ -20,8 +20,8 @@ from vf import records, tlc
 R = ('example.com', 'v1', 'things')
 KINDS = ['create', 'update', 'delete', 'resume', 'field', 'event', 'daemon', 'timer', 'index']
 LABS = ['none', 'eq', 'present', 'absent', 'cb']
-VALS = ['none', 'field', 'eq1', 'present', 'absent', 'cb_eq1', 'cb_none']
-OLDNEW = ['none', 'eq1', 'eq2', 'present', 'absent']
+VALS = ['none', 'field', 'eq1', 'eq3', 'present', 'absent', 'cb_eq1', 'cb_none']       # eq3: the literal False (a falsy criterion)
+OLDNEW = ['none', 'eq1', 'eq2', 'eq3', 'present', 'absent']
 WHENS = ['none', 'T', 'F']
 
 
@@ -39,8 +39,8 @@ def build_records(quick: bool) -> list[dict[str, Any]]:
     from kopf._core.intents import causes
     res = references.Resource(*R, namespaced=True)
     lab_of = {'none': None, 'eq': {'a': 'x'}, 'present': {'a': kopf.PRESENT}, 'absent': {'a': kopf.ABSENT}, 'cb': {'a': cb_is_x}}
-    val_of = {'eq1': 1, 'present': kopf.PRESENT, 'absent': kopf.ABSENT, 'cb_eq1': cb_eq1, 'cb_none': cb_none}
-    on_of = {'none': None, 'eq1': 1, 'eq2': 2, 'present': kopf.PRESENT, 'absent': kopf.ABSENT}
+    val_of = {'eq1': 1, 'eq3': False, 'present': kopf.PRESENT, 'absent': kopf.ABSENT, 'cb_eq1': cb_eq1, 'cb_none': cb_none}
+    on_of = {'none': None, 'eq1': 1, 'eq2': 2, 'eq3': False, 'present': kopf.PRESENT, 'absent': kopf.ABSENT}
     when_of = {'none': None, 'T': when_t, 'F': when_f}
     dec_of = {'create': kopf.on.create, 'update': kopf.on.update, 'delete': kopf.on.delete, 'resume': kopf.on.resume,
               'field': kopf.on.field, 'event': kopf.on.event, 'daemon': kopf.daemon, 'timer': kopf.timer, 'index': kopf.index}
